@@ -599,8 +599,10 @@ namespace ip {
 					int const copy_size = (std::min)(int(p.buffer.size())
 						, buf_size - buf_offset);
 
-					memcpy(static_cast<char*>(recv_iter->data()) + buf_offset
-						, p.buffer.data(), copy_size);
+					// an empty buffer in the sequence may have a null data pointer
+					if (copy_size > 0)
+						memcpy(static_cast<char*>(recv_iter->data()) + buf_offset
+							, p.buffer.data(), copy_size);
 
 					p.buffer.erase(p.buffer.begin(), p.buffer.begin() + copy_size);
 					m_queue_size -= copy_size;
